@@ -155,6 +155,7 @@ structure FieldInfo where
   dumpSkip : Bool := false            -- dump=False
   skipIf : Option Cond := none        -- SkipIf / skip_if_field
   isCatchAll : Bool := false
+  postInit : Option Lit := none       -- value assigned by `__post_init__` (init=False fields without default)
   deriving Repr, DecidableEq, Inhabited
 
 /-- Non-type description of a dataclass: carried by `Ty.cls` *and* by every instance
